@@ -88,7 +88,13 @@ class Ctx:
 
     def suite(self, name):
         if name not in self._suites:
-            self._suites[name] = interp.Suite(facts.load(self.dir, 'm-' + name))
+            if name.startswith('rel:'):
+                f = facts.load(os.path.join(self.dir, 'rel'), 'm-' + name[4:])
+                f = dict(f)
+                f['suite'] = name
+                self._suites[name] = interp.Suite(f)
+            else:
+                self._suites[name] = interp.Suite(facts.load(self.dir, 'm-' + name))
         return self._suites[name]
 
     def gbody(self, suffix):
